@@ -486,7 +486,7 @@ class WcsSampler(object):
         coarse_pix[..., 0] = coarse_idx1.reshape((-1, 1))
         coarse_pix[..., 1] = coarse_idx2.reshape((1, -1))
 
-        coarse_world = self._wcs.wcs_pix2world(coarse_pix.reshape((-1, 2)), 1).reshape(
+        coarse_world = self._wcs.all_pix2world(coarse_pix.reshape((-1, 2)), 1).reshape(
             (N_COARSE, N_COARSE, 2)
         )
 
@@ -540,7 +540,7 @@ class WcsSampler(object):
 
             # Compute the refined world grid.
 
-            refined_world = self._wcs.wcs_pix2world(
+            refined_world = self._wcs.all_pix2world(
                 refined_pix.reshape((-1, 2)), 1
             ).reshape((n1, n2, 2))
 
@@ -629,7 +629,7 @@ class WcsSampler(object):
 
             # Compute the refined world grid.
 
-            refined_lon = self._wcs.wcs_pix2world(refined_pix, 1)[:, 0]
+            refined_lon = self._wcs.all_pix2world(refined_pix, 1)[:, 0]
 
             # But wait! We need to re-apply whatever delta was involved in the
             # global unwrapping. I'm 95% sure that we won't ever need to
